@@ -12,8 +12,8 @@ Range(f) == {f[i] : i \in DOMAIN f}
 CaseOf(e) == [abi |-> e.abi, self |-> e.self, params |-> e.params, borrow |-> Range(e.borrow), ret |-> e.ret, ok |-> e.ok]
 NoCase == [abi |-> "legacy", self |-> "none", params |-> <<>>, borrow |-> {}, ret |-> "unit", ok |-> TRUE]
 
-TInit == cs = NoCase /\ heap = <<>> /\ phase = "done" /\ regs = 0 /\ fin = 0 /\ wst = "none" /\ l = 1 /\ bad = <<>>
-Begin(e) == /\ cs' = CaseOf(e) /\ heap' = <<>> /\ phase' = "marshal" /\ regs' = 0 /\ fin' = 0 /\ wst' = "none"
+TInit == cs = NoCase /\ heap = <<>> /\ phase = "done" /\ regs = 0 /\ fin = 0 /\ wst = "none" /\ oreg = 0 /\ odes = 0 /\ l = 1 /\ bad = <<>>
+Begin(e) == /\ cs' = CaseOf(e) /\ heap' = <<>> /\ phase' = "marshal" /\ regs' = 0 /\ fin' = 0 /\ wst' = "none" /\ oreg' = 0 /\ odes' = 0
 Step(e) ==
   CASE e.ev = "Alloc" -> Alloc(e.ptr, e.size, e.align)
     [] e.ev = "Free" -> Free(e.ptr, e.size, e.align)
@@ -27,6 +27,8 @@ Step(e) ==
     [] e.ev = "DropResult" -> DropResult
     [] e.ev = "Finalize" -> Finalize
     [] e.ev = "Quiesce" -> Quiesce
+    [] e.ev = "RegisterOpaque" -> RegisterOpaque(e.ptr)
+    [] e.ev = "Destroy" -> DestroyOpaque(e.ptr)
     [] OTHER -> FALSE
 RECURSIVE NextBegin(_)
 NextBegin(i) == IF i > Len(Rec) THEN i ELSE IF Rec[i].ev = "Begin" THEN i ELSE NextBegin(i + 1)
@@ -36,7 +38,7 @@ TNext ==
   \/ Strict
   \/ /\ l <= Len(Rec) /\ Rec[l].ev # "Begin" /\ ~ENABLED Strict
      /\ bad' = Append(bad, [run |-> Rec[l].run, at |-> l, ev |-> Rec[l], phase |-> phase, nheap |-> Len(heap), nplan |-> Len(Plan(cs)),
-                            regs |-> regs, want_regs |-> ExpectedRegs(cs),
+                            regs |-> regs, want_regs |-> ExpectedRegs(cs), oreg |-> oreg, want_oreg |-> ExpectedOregs(cs),
                             next |-> IF Len(heap) < Len(Plan(cs)) THEN Plan(cs)[Len(heap) + 1] ELSE Ent(0, 0, "-", 0, FALSE),
                             live |-> {<<heap[i].size, heap[i].align, heap[i].cls>> : i \in {j \in 1..Len(heap) : Live(j)}}])
      /\ l' = NextBegin(l)
